@@ -455,6 +455,12 @@ func init() {
 						return grpcRes(err)
 					}}}
 			inl := rng.IntN(2) == 0
+			nSetup := len(ops)
+			defer func() {
+				// the four read paths in seeded order (a crash on one path must not always hide the others)
+				reads := ops[nSetup:]
+				rng.Shuffle(len(reads), func(i, j int) { reads[i], reads[j] = reads[j], reads[i] })
+			}()
 			ops = append(ops, &op{ep: "grpc:AC.GetActionResult", desc: map[string]any{"key": key.Hash, "inline": inl, "tree": c.name},
 				run: func(ctx context.Context, fx *fixture) result {
 					_, err := fx.srv.AC.GetActionResult(ctx, &pb.GetActionResultRequest{ActionDigest: key, InlineStdout: inl, InlineStderr: inl, InlineOutputFiles: []string{"a", "big", "nope"}})
